@@ -25,8 +25,9 @@ theorem emits_cs_pos {ser ser' : Ser.State} {xs : List (Ser.Packet × Msg)} (h :
   rw [← hr, runAll_eq_runOps]
   exact C19.C19_reachable_cs_pos ops ser hp
 
-/-- no-hang: an error, if any, is not the artefact `hang` -/
-def NH {α : Type} (r : Except Err α) : Prop := ∀ e, r = .error e → e ≠ .hang
+/-- an error, if any, is neither of the model's artefacts: `hang` (a loop that would not return) and
+    "deserializer loop out of model fuel" -/
+def NH {α : Type} (r : Except Err α) : Prop := ∀ e, r = .error e → e ≠ .hang ∧ e ≠ .chunkDes .fuel
 
 theorem nh_ok {α : Type} (x : α) : NH (.ok x : Except Err α) := fun _ h => by cases h
 
@@ -60,7 +61,7 @@ theorem send_nh (s : Srv.State) (hp : Safe s) (m : RtmpMsg) (ts msid : Nat) (f d
   · simp at h
 
 theorem send_nh' {s : Srv.State} {m : RtmpMsg} {ts msid : Nat} {f d : Bool} {e : Err}
-    (he : Srv.send s m ts msid f d = .error e) (hp : 1 ≤ s.ser.maxCs) : e ≠ .hang :=
+    (he : Srv.send s m ts msid f d = .error e) (hp : 1 ≤ s.ser.maxCs) : e ≠ .hang ∧ e ≠ .chunkDes .fuel :=
   send_nh s hp m ts msid f d e he
 
 theorem errorOut_nh (s : Srv.State) (hp : Safe s) (now : Nat) (code desc : Bytes) (tid sid : Nat) :
@@ -260,7 +261,14 @@ theorem handleMessage_nh (s : Srv.State) (hp : Safe s) (now : Nat) (p : Msg) (m 
   | setChunkSize n =>
     simp only at h
     split at h
-    · simp only [Except.error.injEq] at h; rw [← h]; simp
+    · rename_i e2 hc2
+      simp only [Except.error.injEq] at h; rw [← h]
+      refine ⟨by simp, ?_⟩
+      intro hh
+      simp only [Err.chunkDes.injEq] at hh
+      rw [hh] at hc2
+      unfold Des.setMaxChunkSize at hc2
+      split at hc2 <;> simp at hc2
     · simp at h
   | userControl ev a b ts =>
     simp only at h
@@ -281,4 +289,465 @@ theorem handleMessage_nh (s : Srv.State) (hp : Safe s) (now : Nat) (p : Msg) (m 
   | windowAck n => simp at h
   | unknown _ _ => simp at h
 
+/-- the model's loop fuel covers what is left to do: one iteration per message still in the buffer (each
+    takes at least its basic-header byte), one for a message already under way, one to find the buffer dry -/
+def FuelOK (f : Nat) (s : Srv.State) : Prop :=
+  s.des.buf.length + (if s.des.core.stage = .csid then 1 else 2) ≤ f
+
+/-- neither `hang` nor "out of model fuel" -/
+def Fine (r : Except Err (List Srv.Res)) : Prop := NH r ∧ r ≠ .error (.chunkDes .fuel)
+
+theorem msgLoop_safe (f : Nat) : ∀ (s s' : Srv.State) (now : Nat) (acc : List Srv.Res) (r : Except Err (List Srv.Res)),
+    SrvEmit.Inv s → Safe s → FuelOK f s → Srv.msgLoop f s now acc = (s', r) → Fine r := by
+  induction f with
+  | zero =>
+    intro s s' now acc r _ _ hf _
+    unfold FuelOK at hf
+    split at hf <;> omega
+  | succ f ih =>
+    intro s s' now acc r hi hp hf h
+    simp only [Srv.msgLoop] at h
+    obtain ⟨n1, n2, n3⟩ := Des.next_facts s.des
+    obtain ⟨hc1, hm1⟩ := Des.next_ok s.des hi.1
+    have hi1 : SrvEmit.Inv { s with des := { core := (Des.next s.des).core, buf := (Des.next s.des).buf } } := ⟨hc1, hi.2⟩
+    split at h
+    · rename_i e he
+      simp only [Prod.mk.injEq] at h; rw [← h.2]
+      have hne : e ≠ Des.Err.fuel := fun hx => by rw [hx] at he; exact n1 he
+      refine ⟨fun e' hh => by simp only [Except.error.injEq] at hh; rw [← hh]; exact ⟨by simp, by simpa using hne⟩, ?_⟩
+      intro hh
+      simp only [Except.error.injEq, Err.chunkDes.injEq] at hh
+      exact hne hh
+    · split at h
+      · simp only [Prod.mk.injEq] at h; rw [← h.2]; exact ⟨nh_ok _, by simp⟩
+      · rename_i p hp'
+        obtain ⟨k1, k2⟩ := n3 p hp'
+        split at h
+        · simp only [Prod.mk.injEq] at h; rw [← h.2]
+          exact ⟨fun e' hh => by simp only [Except.error.injEq] at hh; rw [← hh]; simp, by simp⟩
+        · rename_i m hm
+          split at h
+          · rename_i e he
+            simp only [Prod.mk.injEq] at h; rw [← h.2]
+            have := handleMessage_nh _ (show Safe { s with des := { core := (Des.next s.des).core, buf := (Des.next s.des).buf } } from hp) now p m e he
+            exact ⟨fun e' hh => by simp only [Except.error.injEq] at hh; rw [← hh]; exact this,
+              fun hh => by simp only [Except.error.injEq] at hh; exact this.2 hh⟩
+          · rename_i s2 rs2 hmsg
+            have hst := SrvEmit.step_handleMessage (hm1 p hp') hmsg
+            have hd := handleMessage_des hmsg
+            have hp2 : Safe s2 := by
+              obtain ⟨xs, ex, _, _⟩ := hst.1
+              exact emits_cs_pos ex hp
+            refine ih s2 s' now _ r (hst.2 hi1) hp2 ?_ h
+            unfold FuelOK at hf ⊢
+            rw [hd.1, hd.2]
+            simp only [k1, if_true]
+            split at hf
+            · rename_i hcs
+              have := k2 hcs
+              omega
+            · omega
+
+/-- **server, any input.**  From every state that keeps the session invariant and a positive outbound
+    chunk size, for every byte string: `handle_input` returns results or a real error — never the
+    model's `hang`, never "loop out of fuel" -/
+theorem handleInput_safe (s : Srv.State) (now : Nat) (bytes : Bytes) (hi : SrvEmit.Inv s) (hp : Safe s) :
+    Fine (Srv.handleInput s now bytes).2 := by
+  have hx : Srv.handleInput s now bytes = ((Srv.handleInput s now bytes).1, (Srv.handleInput s now bytes).2) := rfl
+  generalize (Srv.handleInput s now bytes).1 = s' at hx
+  generalize (Srv.handleInput s now bytes).2 = r at hx
+  unfold Srv.handleInput at hx
+  simp only at hx
+  have hfuel : ∀ st : Srv.State, st.des.buf = s.des.buf ++ bytes →
+      FuelOK (bytes.length + s.des.buf.length + 2) st := by
+    intro st hb
+    unfold FuelOK
+    rw [hb, List.length_append]
+    split <;> omega
+  split at hx
+  · have key := fun a b c => msgLoop_safe _ _ s' now [] r a b c hx
+    exact key ⟨hi.1, hi.2⟩ hp (hfuel _ rfl)
+  · split at hx
+    · rename_i n hack e he
+      simp only [Prod.mk.injEq] at hx; rw [← hx.2]
+      have := send_nh' he hp
+      exact ⟨fun e' hh => by simp only [Except.error.injEq] at hh; rw [← hh]; exact this,
+        fun hh => by simp only [Except.error.injEq] at hh; exact this.2 hh⟩
+    · rename_i n hack s1 p hs
+      have hst := SrvEmit.step_send hs trivial (SrvEmit.epoch_lt now) (by show (0 : Nat) < 4294967296; omega)
+      have hd := send_des hs
+      have hp1 : Safe s1 := by
+        obtain ⟨xs, ex, _, _⟩ := hst.1
+        exact emits_cs_pos ex hp
+      have hi1 := hst.2 (show SrvEmit.Inv _ from ⟨hi.1, hi.2⟩)
+      have key := fun a b c => msgLoop_safe _ _ s' now [.out p] r a b c hx
+      exact key ⟨hi1.1, hi1.2⟩ hp1 (hfuel _ hd.1)
+
+/-- every state a server session reaches keeps both -/
+theorem reach (c : Srv.Config) (now : Nat) (s0 : Srv.State) (rs0 : List Srv.Res) (ops : List SrvEmit.Op)
+    (hnew : Srv.new c now = .ok (s0, rs0)) (hw : ∀ op ∈ ops, op.WF) (hk : SrvEmit.ErrKeepsSer s0 ops) :
+    SrvEmit.Inv (SrvEmit.run s0 ops).1 ∧ Safe (SrvEmit.run s0 ops).1 := by
+  obtain ⟨x0, e0, _, hinv⟩ := SrvEmit.new_emits hnew
+  obtain ⟨⟨x1, e1, _, _⟩, hi⟩ := SrvEmit.run_step ops s0 hinv hw hk
+  exact ⟨hi, emits_cs_pos (e0.trans e1) (by decide)⟩
+
 end Rml.Safe.S
+
+namespace Rml.Safe.C
+open Rml Rml.Bytes Rml.Chunk Rml.Amf0 Rml.Msgs Rml.Sess Rml.Emit Rml.Safe
+
+def Safe (s : Cli.State) : Prop := 1 ≤ s.ser.maxCs
+
+theorem send_nh' {s : Cli.State} {m : RtmpMsg} {ts msid : Nat} {d : Bool} {e : Err}
+    (he : Cli.send s m ts msid d = .error e) (hp : 1 ≤ s.ser.maxCs) : e ≠ .hang ∧ e ≠ .chunkDes .fuel := by
+  unfold Cli.send at he
+  split at he
+  · rename_i e' h'
+    simp only [Except.error.injEq] at he; rw [← he]
+    exact sendMsg_nh s.ser hp m ts msid false d e' h'
+  · simp at he
+
+def DesFrame (s s' : Cli.State) : Prop := s'.des.buf = s.des.buf ∧ s'.des.core.stage = s.des.core.stage
+
+theorem send_frame {s s' : Cli.State} {m : RtmpMsg} {ts msid : Nat} {d : Bool} {p : Ser.Packet}
+    (h : Cli.send s m ts msid d = .ok (s', p)) : DesFrame s s' ∧ (Safe s → Safe s') := by
+  unfold Cli.send at h
+  split at h
+  · simp at h
+  · rename_i ser' p' hm
+    simp only [Except.ok.injEq, Prod.mk.injEq] at h; rw [← h.1]
+    refine ⟨⟨rfl, rfl⟩, fun hp => ?_⟩
+    unfold sendMsg at hm
+    split at hm
+    · simp at hm
+    · split at hm
+      · rename_i r hser
+        simp only [Except.ok.injEq] at hm
+        rw [hm] at hser
+        show 1 ≤ ser'.maxCs
+        rw [C19.serialize_maxCs _ _ _ _ _ _ hser]; exact hp
+      · simp at hm
+      · simp at hm
+
+theorem setcs_ne_hang (ser : Ser.State) (hp : 1 ≤ ser.maxCs) (n ts : Nat) : Ser.setMaxChunkSize ser n ts ≠ .hang := by
+  unfold Ser.setMaxChunkSize
+  split
+  · simp
+  · have := C19.serialize_ne_hang ser hp { ts := ts, typ := 1, msid := 0, data := Bytes.be32 n } true false
+    cases hser : Ser.serialize ser { ts := ts, typ := 1, msid := 0, data := Bytes.be32 n } true false with
+    | ok r => simp
+    | err e => simp
+    | hang => exact absurd hser this
+
+theorem handleResult_nh (s : Cli.State) (hp : Safe s) (now tid : Nat) (obj : Val) (args : List Val) :
+    NH (Cli.handleResult s now tid obj args) := by
+  intro e h
+  unfold Cli.handleResult at h
+  simp only at h
+  cases hg : mapGet (F64.toU32 tid) s.txns with
+  | none => simp [hg] at h
+  | some txn =>
+    simp only [hg] at h
+    cases txn with
+    | connection app =>
+      simp only at h
+      split at h
+      · rename_i e' he
+        simp only [Except.error.injEq] at h; rw [← h]; exact send_nh' he hp
+      · rename_i s2 p1 hs1
+        have hp2 := (send_frame hs1).2 hp
+        cases hcs : Ser.setMaxChunkSize s2.ser s.cfg.chunkSize 0 with
+        | err e2 => simp only [hcs, Except.error.injEq] at h; rw [← h]; simp
+        | hang => exact absurd hcs (setcs_ne_hang s2.ser hp2 _ _)
+        | ok q => simp [hcs] at h
+    | createStream purpose =>
+      simp only at h
+      match args, h with
+      | [], h => simp only [Except.error.injEq] at h; rw [← h]; simp
+      | .number n :: rest, h =>
+        simp only at h
+        cases purpose with
+        | play k =>
+          simp only at h
+          split at h
+          · rename_i e' he
+            simp only [Except.error.injEq] at h; rw [← h]; exact send_nh' he hp
+          · rename_i s3 p1 hs1
+            have hp3 := (send_frame hs1).2 hp
+            split at h
+            · rename_i e' he
+              simp only [Except.error.injEq] at h; rw [← h]; exact send_nh' he hp3
+            · simp at h
+        | publish k t =>
+          simp only at h
+          split at h
+          · rename_i e' he
+            simp only [Except.error.injEq] at h; rw [← h]; exact send_nh' he hp
+          · simp at h
+      | .boolean _ :: _, h => simp only [Except.error.injEq] at h; rw [← h]; simp
+      | .str _ :: _, h => simp only [Except.error.injEq] at h; rw [← h]; simp
+      | .object _ :: _, h => simp only [Except.error.injEq] at h; rw [← h]; simp
+      | .array _ :: _, h => simp only [Except.error.injEq] at h; rw [← h]; simp
+      | .null :: _, h => simp only [Except.error.injEq] at h; rw [← h]; simp
+      | .undefined :: _, h => simp only [Except.error.injEq] at h; rw [← h]; simp
+
+theorem handleError_nh (s : Cli.State) (tid : Nat) (obj : Val) (args : List Val) : NH (Cli.handleError s tid obj args) := by
+  intro e h
+  unfold Cli.handleError at h
+  simp only at h
+  (repeat' split at h) <;> simp at h <;> (rw [← h]; simp)
+
+theorem handleOnStatus_nh (s : Cli.State) (args : List Val) : NH (Cli.handleOnStatus s args) := by
+  intro e h
+  unfold Cli.handleOnStatus at h
+  (repeat' split at h) <;> simp at h <;> (rw [← h]; simp)
+
+theorem handleMedia_nh (s : Cli.State) (v : Bool) (sid : Nat) (d : Bytes) (ts : Nat) : NH (Cli.handleMedia s v sid d ts) := by
+  intro e h
+  unfold Cli.handleMedia at h
+  (repeat' split at h) <;> simp at h <;> (rw [← h]; simp)
+
+theorem handleResult_des {s s' : Cli.State} {now tid : Nat} {obj : Val} {args : List Val} {rs : List Cli.Res}
+    (h : Cli.handleResult s now tid obj args = .ok (s', rs)) : DesFrame s s' := by
+  unfold Cli.handleResult at h
+  simp only at h
+  cases hg : mapGet (F64.toU32 tid) s.txns with
+  | none => simp only [hg, Except.ok.injEq, Prod.mk.injEq] at h; rw [← h.1]; exact ⟨rfl, rfl⟩
+  | some txn =>
+    simp only [hg] at h
+    cases txn with
+    | connection app =>
+      simp only at h
+      split at h
+      · simp at h
+      · rename_i s2 p1 hs1
+        have f1 := (send_frame hs1).1
+        cases hcs : Ser.setMaxChunkSize s2.ser s.cfg.chunkSize 0 with
+        | err e2 => simp [hcs] at h
+        | hang => simp [hcs] at h
+        | ok q =>
+          obtain ⟨ser3, p2⟩ := q
+          simp only [hcs, Except.ok.injEq, Prod.mk.injEq] at h; rw [← h.1]
+          exact ⟨f1.1, f1.2⟩
+    | createStream purpose =>
+      simp only at h
+      match args, h with
+      | [], h => simp at h
+      | .number n :: rest, h =>
+        simp only at h
+        cases purpose with
+        | play k =>
+          simp only at h
+          split at h
+          · simp at h
+          · rename_i s3 p1 hs1
+            have f1 := (send_frame hs1).1
+            split at h
+            · simp at h
+            · rename_i s4 p2 hs2
+              have f2 := (send_frame hs2).1
+              simp only [Except.ok.injEq, Prod.mk.injEq] at h; rw [← h.1]
+              exact ⟨f2.1.trans f1.1, f2.2.trans f1.2⟩
+        | publish k t =>
+          simp only at h
+          split at h
+          · simp at h
+          · rename_i s3 p1 hs1
+            have f1 := (send_frame hs1).1
+            simp only [Except.ok.injEq, Prod.mk.injEq] at h; rw [← h.1]
+            exact ⟨f1.1, f1.2⟩
+      | .boolean _ :: _, h => simp at h
+      | .str _ :: _, h => simp at h
+      | .object _ :: _, h => simp at h
+      | .array _ :: _, h => simp at h
+      | .null :: _, h => simp at h
+      | .undefined :: _, h => simp at h
+
+theorem handleError_des {s s' : Cli.State} {tid : Nat} {obj : Val} {args : List Val} {rs : List Cli.Res}
+    (h : Cli.handleError s tid obj args = .ok (s', rs)) : DesFrame s s' := by
+  unfold Cli.handleError at h
+  simp only at h
+  (repeat' split at h)
+  all_goals first
+    | (simp at h; done)
+    | (simp only [Except.ok.injEq, Prod.mk.injEq] at h; rw [← h.1]; exact ⟨rfl, rfl⟩)
+
+theorem handleOnStatus_des {s s' : Cli.State} {args : List Val} {rs : List Cli.Res}
+    (h : Cli.handleOnStatus s args = .ok (s', rs)) : DesFrame s s' := by
+  unfold Cli.handleOnStatus at h
+  (repeat' split at h)
+  all_goals first
+    | (simp at h; done)
+    | (simp only [Except.ok.injEq, Prod.mk.injEq] at h; rw [← h.1]; exact ⟨rfl, rfl⟩)
+
+/-- one decoded message on the client: no artefact error; on success the deserializer's buffer and stage
+    are untouched -/
+theorem handleMessage_facts (s : Cli.State) (hp : Safe s) (now : Nat) (p : Msg) (m : RtmpMsg) :
+    NH (Cli.handleMessage s now p m).2 ∧
+    (∀ rs, (Cli.handleMessage s now p m).2 = .ok rs → DesFrame s (Cli.handleMessage s now p m).1) := by
+  have same : ∀ rs0 : List Cli.Res, NH (Except.ok rs0 : Except Err (List Cli.Res)) ∧
+      (∀ rs, (Except.ok rs0 : Except Err (List Cli.Res)) = .ok rs → DesFrame s s) :=
+    fun rs0 => ⟨nh_ok _, fun _ _ => ⟨rfl, rfl⟩⟩
+  unfold Cli.handleMessage
+  cases m with
+  | ack n => exact same _
+  | amf0Command name tid obj args =>
+    simp only
+    split
+    · cases hr : Cli.handleResult s now tid obj args with
+      | ok q => obtain ⟨s2, rs2⟩ := q; exact ⟨nh_ok _, fun _ _ => handleResult_des hr⟩
+      | error e =>
+        exact ⟨fun e' hh => by simp only [Except.error.injEq] at hh; rw [← hh]; exact handleResult_nh s hp _ _ _ _ e hr,
+          fun rs hh => by cases hh⟩
+    · split
+      · cases hr : Cli.handleError s tid obj args with
+        | ok q => obtain ⟨s2, rs2⟩ := q; exact ⟨nh_ok _, fun _ _ => handleError_des hr⟩
+        | error e =>
+          exact ⟨fun e' hh => by simp only [Except.error.injEq] at hh; rw [← hh]; exact handleError_nh s _ _ _ e hr,
+            fun rs hh => by cases hh⟩
+      · split
+        · cases hr : Cli.handleOnStatus s args with
+          | ok q => obtain ⟨s2, rs2⟩ := q; exact ⟨nh_ok _, fun _ _ => handleOnStatus_des hr⟩
+          | error e =>
+            exact ⟨fun e' hh => by simp only [Except.error.injEq] at hh; rw [← hh]; exact handleOnStatus_nh s _ e hr,
+              fun rs hh => by cases hh⟩
+        · exact same _
+  | amf0Data vals => exact same _
+  | audio d =>
+    simp only
+    cases hm : Cli.handleMedia s false p.msid d p.ts with
+    | ok r0 => exact ⟨nh_ok _, fun _ _ => ⟨rfl, rfl⟩⟩
+    | error e =>
+      exact ⟨fun e' hh => by simp only [Except.error.injEq] at hh; rw [← hh]; exact handleMedia_nh s _ _ _ _ e hm,
+        fun rs hh => by cases hh⟩
+  | video d =>
+    simp only
+    cases hm : Cli.handleMedia s true p.msid d p.ts with
+    | ok r0 => exact ⟨nh_ok _, fun _ _ => ⟨rfl, rfl⟩⟩
+    | error e =>
+      exact ⟨fun e' hh => by simp only [Except.error.injEq] at hh; rw [← hh]; exact handleMedia_nh s _ _ _ _ e hm,
+        fun rs hh => by cases hh⟩
+  | userControl ev a b ts =>
+    simp only
+    cases ev <;> simp only
+    all_goals first
+      | exact same _
+      | (cases hs : Cli.send s (.userControl .pingResponse none none ts) (epoch now) 0 with
+         | ok q => obtain ⟨s2, pk⟩ := q; exact ⟨nh_ok _, fun _ _ => (send_frame hs).1⟩
+         | error e =>
+           exact ⟨fun e' hh => by simp only [Except.error.injEq] at hh; rw [← hh]; exact send_nh' hs hp,
+             fun rs hh => by cases hh⟩)
+  | windowAck n => exact ⟨nh_ok _, fun _ _ => ⟨rfl, rfl⟩⟩
+  | setChunkSize n =>
+    simp only
+    cases hc : Des.setMaxChunkSize s.des.core n with
+    | ok c => exact ⟨nh_ok _, fun _ _ => ⟨rfl, S.setMaxChunkSize_stage hc⟩⟩
+    | error e =>
+      refine ⟨fun e' hh => ?_, fun rs hh => by cases hh⟩
+      simp only [Except.error.injEq] at hh; rw [← hh]
+      refine ⟨by simp, ?_⟩
+      intro hx
+      simp only [Err.chunkDes.injEq] at hx
+      rw [hx] at hc
+      unfold Des.setMaxChunkSize at hc
+      split at hc <;> simp at hc
+  | abort _ => exact same _
+  | setPeerBandwidth _ _ => exact same _
+  | unknown _ _ => exact same _
+
+def FuelOK (f : Nat) (s : Cli.State) : Prop :=
+  s.des.buf.length + (if s.des.core.stage = .csid then 1 else 2) ≤ f
+
+def Fine (r : Except Err (List Cli.Res)) : Prop := NH r ∧ r ≠ .error (.chunkDes .fuel)
+
+theorem fine_of_nh {r : Except Err (List Cli.Res)} (h : NH r) : Fine r :=
+  ⟨h, fun hh => (h _ hh).2 rfl⟩
+
+theorem msgLoop_safe (f : Nat) : ∀ (s s' : Cli.State) (now : Nat) (acc : List Cli.Res) (r : Except Err (List Cli.Res)),
+    CliEmit.Inv s → Safe s → FuelOK f s → Cli.msgLoop f s now acc = (s', r) → Fine r := by
+  induction f with
+  | zero =>
+    intro s s' now acc r _ _ hf _
+    unfold FuelOK at hf
+    split at hf <;> omega
+  | succ f ih =>
+    intro s s' now acc r hi hp hf h
+    simp only [Cli.msgLoop] at h
+    obtain ⟨n1, n2, n3⟩ := Des.next_facts s.des
+    obtain ⟨hc1, hm1⟩ := Des.next_ok s.des hi.1
+    have hi1 : CliEmit.Inv { s with des := { core := (Des.next s.des).core, buf := (Des.next s.des).buf } } := ⟨hc1, hi.2⟩
+    have hp1 : Safe { s with des := { core := (Des.next s.des).core, buf := (Des.next s.des).buf } } := hp
+    split at h
+    · rename_i e he
+      simp only [Prod.mk.injEq] at h; rw [← h.2]
+      have hne : e ≠ Des.Err.fuel := fun hx => by rw [hx] at he; exact n1 he
+      apply fine_of_nh
+      intro e' hh
+      simp only [Except.error.injEq] at hh; rw [← hh]; exact ⟨by simp, by simpa using hne⟩
+    · split at h
+      · simp only [Prod.mk.injEq] at h; rw [← h.2]; exact fine_of_nh (nh_ok _)
+      · rename_i p hp'
+        obtain ⟨k1, k2⟩ := n3 p hp'
+        split at h
+        · simp only [Prod.mk.injEq] at h; rw [← h.2]
+          exact fine_of_nh (fun e' hh => by simp only [Except.error.injEq] at hh; rw [← hh]; simp)
+        · rename_i m hm
+          obtain ⟨hnh, hdes⟩ := handleMessage_facts _ hp1 now p m
+          split at h
+          · rename_i s2 e hmsg
+            simp only [Prod.mk.injEq] at h; rw [← h.2]
+            rw [hmsg] at hnh
+            exact fine_of_nh hnh
+          · rename_i s2 rs2 hmsg
+            obtain ⟨hi2, hem2⟩ := CliEmit.handleMessage_step hi1 hmsg
+            have hd : DesFrame { s with des := { core := (Des.next s.des).core, buf := (Des.next s.des).buf } } s2 := by
+              have := hdes rs2 (by rw [hmsg])
+              rw [hmsg] at this; exact this
+            have hp2 : Safe s2 := by
+              obtain ⟨xs, ex, _, _⟩ := hem2 rs2 rfl
+              exact emits_cs_pos ex hp1
+            refine ih s2 s' now _ r hi2 hp2 ?_ h
+            unfold FuelOK at hf ⊢
+            rw [hd.1, hd.2]
+            simp only [k1, if_true]
+            split at hf
+            · rename_i hcs
+              have := k2 hcs
+              omega
+            · omega
+
+/-- **client, any input** -/
+theorem handleInput_safe (s : Cli.State) (now : Nat) (bytes : Bytes) (hi : CliEmit.Inv s) (hp : Safe s) :
+    Fine (Cli.handleInput s now bytes).2 := by
+  have hx : Cli.handleInput s now bytes = ((Cli.handleInput s now bytes).1, (Cli.handleInput s now bytes).2) := rfl
+  generalize (Cli.handleInput s now bytes).1 = s' at hx
+  generalize (Cli.handleInput s now bytes).2 = r at hx
+  unfold Cli.handleInput at hx
+  simp only at hx
+  have hfuel : ∀ st : Cli.State, st.des.buf = s.des.buf ++ bytes →
+      FuelOK (bytes.length + s.des.buf.length + 2) st := by
+    intro st hb
+    unfold FuelOK
+    rw [hb, List.length_append]
+    split <;> omega
+  split at hx
+  · have key := fun a b c => msgLoop_safe _ _ s' now [] r a b c hx
+    exact key ⟨hi.1, hi.2⟩ hp (hfuel _ rfl)
+  · split at hx
+    · rename_i n hack e he
+      simp only [Prod.mk.injEq] at hx; rw [← hx.2]
+      exact fine_of_nh (fun e' hh => by simp only [Except.error.injEq] at hh; rw [← hh]; exact send_nh' he hp)
+    · rename_i n hack s1 p hs
+      have hst := CliEmit.step_send hs trivial (CliEmit.epoch_lt now) (by show (0 : Nat) < 4294967296; omega)
+      obtain ⟨hd, hsf⟩ := send_frame hs
+      have hi1 := hst.2 (show CliEmit.Inv _ from ⟨hi.1, hi.2⟩)
+      have key := fun a b c => msgLoop_safe _ _ s' now [.out p] r a b c hx
+      exact key ⟨hi1.1, hi1.2⟩ (hsf hp) (hfuel _ hd.1)
+
+theorem reach (cfg : Cli.Config) (ops : List CliEmit.Op) (hw : ∀ op ∈ ops, op.WF)
+    (hk : CliEmit.ErrKeepsSer { cfg := cfg } ops) :
+    CliEmit.Inv (CliEmit.run { cfg := cfg } ops).1 ∧ Safe (CliEmit.run { cfg := cfg } ops).1 := by
+  obtain ⟨⟨x1, e1, _, _⟩, hi⟩ := CliEmit.run_step ops { cfg := cfg } (CliEmit.inv_fresh cfg) hw hk
+  exact ⟨hi, emits_cs_pos e1 (by show (1 : Nat) ≤ 128; omega)⟩
+
+end Rml.Safe.C
